@@ -43,6 +43,13 @@ TECMP::LinPayload::LinPayload(const uint8_t* data, const size_t size)
     : Payload(TECMP::PayloadType::lin, data, size)
 {
 }
+bool TECMP::LinPayload::isValid() const
+{
+    // The header and the number of data bytes it announces have to lie inside the payload
+    return Payload::isValid() && payloadData.size() >= sizeof(Header) &&
+           getHeader()->getDataLength() <= payloadData.size() - sizeof(Header);
+}
+
 const uint8_t* TECMP::LinPayload::getData() const
 {
     return payloadData.data() + sizeof(Header);
